@@ -198,7 +198,7 @@ func cmdCheck(property string, args []string) int {
 				continue
 			}
 			if ke := L.P.matchKnown(v); ke != nil {
-				knownLines = append(knownLines, fmt.Sprintf("KNOWN-FINDING: property=%s %s", property, ke.text))
+				knownLines = append(knownLines, fmt.Sprintf("KNOWN-FINDING: property=%s %s", property, knownBody(ke.text)))
 				rep.KnownHits = append(rep.KnownHits, ke.id)
 				continue
 			}
@@ -261,10 +261,23 @@ func cmdCheck(property string, args []string) int {
 func knownText(P *Program, id string) string {
 	for _, e := range P.knownEntries {
 		if e.kind == "known" && e.id == id {
-			return e.text
+			return knownBody(e.text)
 		}
 	}
 	return id
+}
+
+// knownBody: the entry without its "known:" marker and "property=" field (the line that is printed names the
+// property being checked itself)
+func knownBody(text string) string {
+	var out []string
+	for _, f := range strings.Fields(text) {
+		if f == "known:" || strings.HasPrefix(f, "property=") {
+			continue
+		}
+		out = append(out, f)
+	}
+	return strings.Join(out, " ")
 }
 
 func uniq(s []string, max int) []string {
